@@ -722,7 +722,9 @@ class CSSSerializer:
             for item in rule.seq:
                 type_, val = item.type, item.value
                 # PRE
-                if '}' == val and stacks:
+                # (a string or URL whose content is a brace is no block delimiter)
+                delimiter = type_ not in ('STRING', 'URI')
+                if '}' == val and delimiter and stacks:
                     # close last open item on stack
                     stackblock = stacks.pop().value()
                     if stackblock:
@@ -739,7 +741,7 @@ class CSSSerializer:
                     out.append(val, type_)
 
                 # POST
-                if '{' == val:
+                if '{' == val and delimiter:
                     # new stack level
                     stacks.append(Out(self))
 
